@@ -29,7 +29,7 @@ pub fn run(repo: &str, header_wasm: Option<&str>) -> Result<()> {
     let (module, imps) = api_imports(repo)?;
     let provider_module = shopify_function_trampoline::PROVIDER_MODULE_NAME;
     // what the trampoline accepts: one guest per API name with the public signature
-    let mut accepted = vec![]; let mut wrong_sig_rejected = vec![]; let mut wrong_sig_accepted = vec![];
+    let mut accepted = vec![]; let mut wrong_sig_rejected = vec![]; let mut wrong_sig_accepted = vec![]; let mut dup_wrong_sig_rejected: Vec<String> = vec![];
     let ty = |t: &ValType| vt(t).to_string();
     for i in &imps {
         let params: String = i.params.iter().map(|p| format!(" (param {})", ty(p))).collect(); let results: String = i.results.iter().map(|p| format!(" (result {})", ty(p))).collect();
@@ -38,6 +38,9 @@ pub fn run(repo: &str, header_wasm: Option<&str>) -> Result<()> {
         // a wrong signature: one extra i64 parameter
         let g2 = format!("(module (import \"{}\" \"{}\" (func{} (param i64){})) (memory 1))", provider_module, i.name, params, results);
         if accepts(&g2) { wrong_sig_accepted.push(i.name.clone()); } else { wrong_sig_rejected.push(i.name.clone()); }
+        // the same off-ABI signature hidden behind a first, canonical import of the same name
+        let g3 = format!("(module (import \"{m}\" \"{n}\" (func{p}{r})) (import \"{m}\" \"{n}\" (func{p} (param i32){r})) (memory 1))", m = provider_module, n = i.name, p = params, r = results);
+        if !accepts(&g3) { dup_wrong_sig_rejected.push(i.name.clone()); }
     }
     // which `_<public name>` imports does the tool let through? (each must be something the provider exports)
     let mut lowlevel_accepted = vec![];
@@ -59,14 +62,17 @@ pub fn run(repo: &str, header_wasm: Option<&str>) -> Result<()> {
         json!([m, accepts(&format!("(module (import \"{}\" \"shopify_function_input_get\" (func (result i64))) (memory 1))", m))])).collect();
     let two_memories_rejected = !accepts("(module (memory 1) (memory 1))");
     // what it emits for the all-imports guest
-    let out = trampoline(&wat::parse_str(&guest_wat(&module, &imps)?)?)?;
+    // (when the tool refuses the guest declaring the whole public API, that disagreement is recorded by the per-function
+    //  probes above; what it emits is then taken from the guest of the functions it does accept)
+    let acc: Vec<_> = imps.iter().filter(|i| accepted.contains(&i.name)).cloned().collect();
+    let out = match trampoline(&wat::parse_str(&guest_wat(&module, &imps)?)?) { Ok(o) => o, Err(_) => trampoline(&wat::parse_str(&guest_wat(&module, &acc)?)?)? };
     let d = decode(&out, provider_module)?;
     let emitted: Vec<serde_json::Value> = d.func_imports.iter().map(|(m, n, t)| { let (p, r) = &d.types[*t as usize]; json!([m, n, sig(p, r)]) }).collect();
     let mut j = json!({
         "wat_module": module,
         "wat": imps.iter().map(|i| json!([i.name, sig(&i.params, &i.results)])).collect::<Vec<_>>(),
         "trampoline_module": provider_module,
-        "trampoline_accepts": accepted, "trampoline_rejects_wrong_sig": wrong_sig_rejected, "trampoline_accepts_wrong_sig": wrong_sig_accepted,
+        "trampoline_accepts": accepted, "trampoline_rejects_wrong_sig": wrong_sig_rejected, "trampoline_rejects_wrong_sig_dup": dup_wrong_sig_rejected, "trampoline_accepts_wrong_sig": wrong_sig_accepted,
         "unknown_rejected": unknown_rejected, "empty_name_rejected": empty_name_rejected, "other_version_rejected": other_version_rejected, "two_memories_rejected": two_memories_rejected, "module_probes": module_probe_results,
         "trampoline_accepts_lowlevel": lowlevel_accepted, "trampoline_emits": emitted, "trampoline_memory_imports": d.mem_imports,
     });
